@@ -174,6 +174,11 @@ pub fn run_streaming(sc: &Value) -> Value {
     let mut terminal: Option<&'static str> = None; // "end" | "err"
     let mut aborted = false;
     let mut body_dropped = false;
+    // raw writer with a known chunk size: bytes sitting in the writer's own buffer, to tell
+    // which writes complete a chunk (C11: those must fail once the body is gone)
+    let mut fill: usize = 0;
+    let track = !ce_gzip && chunk.is_some();
+    let csz = chunk.unwrap_or(usize::MAX);
     let mut writer_gone = writer.is_none();
     let mut log: Vec<Value> = Vec::new();
     // (lower, upper, bytes delivered before) sampled before every poll: C12 end-to-end oracle
@@ -257,9 +262,17 @@ pub fn run_streaming(sc: &Value) -> Value {
                     log.push(json!({"op": name, "skipped": true}));
                     continue;
                 };
+                let completing = track && !data.is_empty() && fill + data.len() >= csz;
                 if name == "write" {
                     match w.write(&data) {
                         Ok(n) => {
+                            if completing && body_dropped && !aborted {
+                                violations.push(json!({"property": "C11", "what": "a chunk-completing write succeeded although the response body had been dropped"}));
+                            }
+                            fill += n;
+                            if fill >= csz {
+                                fill = if body_dropped || aborted { csz } else { 0 };
+                            }
                             if n > data.len() {
                                 violations.push(json!({"property": "C08", "what": "write reported more than the buffer"}));
                             }
@@ -273,6 +286,9 @@ pub fn run_streaming(sc: &Value) -> Value {
                             log.push(json!({"op": "write", "ret": n}));
                         }
                         Err(e) => {
+                            if completing {
+                                fill = csz;
+                            }
                             if !aborted && !body_dropped {
                                 violations.push(json!({"property": "C08", "what": format!("write failed on a live body: {e}")}));
                             }
@@ -283,12 +299,21 @@ pub fn run_streaming(sc: &Value) -> Value {
                     match w.write_all(&data) {
                         Ok(()) => {
                             accepted.extend_from_slice(&data);
+                            if completing && body_dropped && !aborted {
+                                violations.push(json!({"property": "C11", "what": "a chunk-completing write_all succeeded although the response body had been dropped"}));
+                            }
+                            if track {
+                                fill = (fill + data.len()) % csz;
+                            }
                             if aborted {
                                 violations.push(json!({"property": "C11", "what": "write_all succeeded after abort"}));
                             }
                             log.push(json!({"op": "write_all", "ok": true}));
                         }
                         Err(e) => {
+                            if completing {
+                                fill = csz;
+                            }
                             if !aborted && !body_dropped {
                                 violations.push(json!({"property": "C08", "what": format!("write_all failed on a live body: {e}")}));
                             }
@@ -301,6 +326,10 @@ pub fn run_streaming(sc: &Value) -> Value {
                 let Some(w) = writer.as_mut() else { continue };
                 match w.flush() {
                     Ok(()) => {
+                        if track && fill > 0 && body_dropped && !aborted {
+                            violations.push(json!({"property": "C11", "what": "flush of buffered data succeeded although the response body had been dropped"}));
+                        }
+                        fill = 0;
                         if aborted {
                             violations.push(json!({"property": "C11", "what": "flush succeeded after abort"}));
                         }
